@@ -24,7 +24,8 @@ EXPLANATION = ("FHDL IR of CSRBank / csr_bus.SRAM / CSRStorage / CSRStatus extra
                "kept symbolic in the word index and both orderings); guard equivalence of strobes; slice agreement between "
                "read and write sides; priority of the dat_r default; abstract evaluation of the word loop per ordering for "
                "the commit word; path rules on the field checks and the placement function.")
-TECHNIQUE = "AST-extracted FHDL IR + guard equivalence + slice agreement + per-ordering loop abstraction + path rules"
+TECHNIQUE = ("AST-extracted FHDL IR + guard equivalence + slice agreement + per-ordering loop abstraction + path rules + dec"
+             "ision table of the placement helper by abstract interpretation")
 
 
 def _slice(text):
